@@ -115,6 +115,31 @@ pub fn probe(r: &mut Runner) {
                     r.ev.violation("bystander_blocked", &format!("{},probe,{}", op.kind(), rel), json!({"actor": t, "height": h, "last_trade_height": touched, "stored_block_number": pos.as_ref().map(|p| p.block)}));
                 } else if out.ok {
                     r.ev.count("probe/unrestricted_accepted");
+                } else if matches!(op, Op::Open { .. }) {
+                    // refused for some other stated reason. Whatever the words, an account whose position was not
+                    // touched in this block must not be refused BECAUSE OF the liquidation: where nothing else the
+                    // liquidation changed can matter to a small order (no price band, no caps, market open and
+                    // registered, engine not paused), the same order is tried on the chain as it was just before the
+                    // liquidation of this very step - accepted there and refused here means the liquidation did it
+                    // (an account that already holds a position is left out: the price the liquidation moved can
+                    // legitimately fail the margin check of its increased position)
+                    let benign = pos.is_none() && vo.fluct == 0 && vo.oi_cap == 0 && vo.holding_cap == 0 && vo.open && vo.registered && !r.model.paused;
+                    let snap = match &r.pre_liq {
+                        Some((i, s)) if *i == r.steps_done && benign => Some(s.clone()),
+                        _ => None,
+                    };
+                    if let Some(snap) = snap {
+                        let tt = t.clone();
+                        let o3 = op.clone();
+                        let before = r.fork(|w| {
+                            w.restore(&snap);
+                            w.exec(&tt, &o3, f, None)
+                        });
+                        r.ev.count("probe/differential_before_liquidation");
+                        if before.ok {
+                            r.ev.violation("bystander_blocked", &format!("{},probe_differential,{}", op.kind(), rel), json!({"actor": t, "height": h, "refused_after_liquidation_with": crate::run::tail(&out.err, 120), "accepted_before_liquidation": true}));
+                        }
+                    }
                 }
             }
         }
